@@ -39,6 +39,8 @@ struct PatSpec {
     /// Prefer a directory that has children as the path to start from.
     prefer_dir: bool,
     comps: Vec<Comp>,
+    /// 0 = as is; 1 = trailing "/"; 2 = "**" glued to the end; 3 = trailing "/**"; 4 = trailing "*".
+    ending: u8,
 }
 
 fn comp_strategy() -> BoxedStrategy<Comp> {
@@ -61,12 +63,14 @@ fn pat_strategy() -> BoxedStrategy<PatSpec> {
         prop::option::weighted(0.6, any::<u16>()),
         prop::bool::weighted(0.6),
         prop::collection::vec(comp_strategy(), 1..=3),
+        prop_oneof![8 => Just(0u8), 1 => Just(1u8), 1 => Just(2u8), 1 => Just(3u8), 1 => Just(4u8)],
     )
-        .prop_map(|(anchored, from_path, prefer_dir, comps)| PatSpec {
+        .prop_map(|(anchored, from_path, prefer_dir, comps, ending)| PatSpec {
             anchored,
             from_path,
             prefer_dir,
             comps,
+            ending,
         })
         .boxed()
 }
@@ -114,7 +118,14 @@ fn resolve(spec: &PatSpec, tree: &Tree) -> Option<String> {
             comps.push(render(c, pick(&names, 0), &names));
         }
     }
-    let body = comps.join("/");
+    let mut body = comps.join("/");
+    match spec.ending {
+        1 => body.push('/'),
+        2 => body.push_str("**"),
+        3 => body.push_str("/**"),
+        4 if !body.ends_with('*') => body.push('*'),
+        _ => {}
+    }
     let pat = if spec.anchored { format!("/{body}") } else { body };
     // Only patterns globset accepts, in both of conserve's expanded forms.
     for cand in [pat.clone(), format!("{pat}/**"), format!("**/{pat}")] {
@@ -346,7 +357,7 @@ pub fn prop() -> Prop<Case> {
     Prop {
         id: "C15",
         level: "exploration",
-        rule: "case = (options, tree, 0-4 patterns built from the tree's own names and paths: anchored/unanchored x components of {literal, *, ?..., prefix*, *suffix, [xz]rest, [!xz]rest, **}); four path sets below the root must coincide: entries decoded independently from backup(exclude=E), listing of a full backup with E, paths created by restoring the full backup with E, and the model rule 'omitted iff it or an ancestor matches a pattern' (anchored = whole path, unanchored = any component-boundary suffix; one-glob-vs-one-string matching delegated to the globset crate). Non-trivial = E excludes >=1 and keeps >=1 entry and some entry is excluded only through an ancestor; distinct by case hash; plus one fixed scale probe (10 012 files, 10 entries per hunk, three name globs)",
+        rule: "case = (options, tree, 0-4 patterns built from the tree's own names and paths: anchored/unanchored x components of {literal, *, ?..., prefix*, *suffix, [xz]rest, [!xz]rest, **}, optionally ending in '/', in a glued '**', in '/**' or in '*'); four path sets below the root must coincide: entries decoded independently from backup(exclude=E), listing of a full backup with E, paths created by restoring the full backup with E, and the model rule 'omitted iff it or an ancestor matches a pattern' (anchored = whole path, unanchored = any component-boundary suffix; one-glob-vs-one-string matching delegated to the globset crate). Non-trivial = E excludes >=1 and keeps >=1 entry and some entry is excluded only through an ancestor; distinct by case hash; plus one fixed scale probe (10 012 files, 10 entries per hunk, three name globs)",
         assumptions: &[
             "single-pattern matching is delegated to the third-party globset crate (not conserve code); what is checked is conserve's pattern expansion, the pruning walk and the per-entry filters",
             "names contain no glob metacharacters; only patterns globset accepts are generated",
